@@ -226,6 +226,9 @@ def check(prop, tier):
     known = [k for k in load_known() if k["property"] == prop and k.get("status") == "known"]
     known_keys = {k["key"] for k in known}
     runs = cfg["runs"][tier]
+    if os.environ.get("VERIF_ONLY") and os.environ.get("VERIF_OUT"):
+        # development aid (scratch output only): run the families whose harness name contains the filter
+        runs = [r for r in runs if os.environ["VERIF_ONLY"] in r["harness"]]
     results, new_viol, inconclusive = [], [], []
     known_seen = {}
     validated = 0
